@@ -1,6 +1,7 @@
 """C11: sensitivity analyses (tx.sensitization_transform, tx.sensitivity_transform, props.sensitivity / influence /
 avg_sensitivity / sensitize) agree with their definitions."""
 import json
+import random
 from fractions import Fraction
 
 import lib
@@ -17,12 +18,15 @@ RULE = ("random lint-clean blackbox-free acyclic circuits (1-6 inputs, 1-8 gates
         "sensitivity; all valuations of the <= 6 cone startpoints simulated on the recorded transform), inf (influence + "
         "avg_sensitivity, exact mode), multi (ONE circuit object: influence / avg_sensitivity with ns a list of 2-3 nodes with different "
         "cones -- every entry of the returned dict is judged --, then node by node as str, sensitivity / sensitize / transforms per "
-        "node, the list query again; argument must be unchanged at the end). non-trivial = n has >= 2 startpoints in its cone or a gate between n and an endpoint; "
+        "node, the list query again; argument must be unchanged; then an in-place edit inside the cone of the first node (retype a gate, add / "
+        "remove an edge) and sensitivity_transform / sensitivity / sensitize / influence on the same object again, judged against the EDITED "
+        "circuit), mask family (n on a cone >= 2 levels deep whose middle node also feeds logic outside the cone, n masked by d and not d / "
+        "a constant: sensitize must return None). non-trivial = n has >= 2 startpoints in its cone or a gate between n and an endpoint; "
         "distinct = canonical input")
 EXPLANATION = ("transform models written through the verified API model and tied to tx.py by graph equality; the property is decided per "
                "case by brute force of the definitions (evalc on the original circuit) against certified simulation of the recorded "
                "transform circuits and the recorded return values; descending search, flipped-node and xor-compare lemmas proved")
-SHARD = 20            # 316 quick evaluations -> 16 shards = one wave on 16 cores; loading the .vo files costs ~3 s per shard
+SHARD = 27            # 416 quick evaluations -> 16 shards = one wave on 16 cores; loading the .vo files costs ~3 s per shard
 HASHSEEDS = {"quick": [0, 1], "thorough": [0, 1, 2, 3]}
 EXC = ("ValueError", "KeyError", "IndexError", "StopIteration", "NotImplementedError")
 
@@ -191,8 +195,64 @@ def gen_multi(rng, tier):
             continue
         for _ in range(20):
             ns = rng.sample(cand, min(len(cand), rng.choice([2, 2, 3])))
-            if len({cones[n] for n in ns}) >= 2:
-                return {"kind": "multi", "circuit": d, "n": ns[0], "ns": ns}
+            if len({cones[n] for n in ns}) >= 2 and len(cones[ns[0]]) <= 4:
+                return {"kind": "multi", "circuit": d, "n": ns[0], "ns": ns, "edit": gen_edit(rng, d, ns[0])}
+
+
+def gen_edit(rng, d, n0):
+    """an in-place edit inside the cone of n0 that keeps the circuit lint-clean and acyclic: retype a gate, add or remove an edge"""
+    by = {x[0]: x for x in d["nodes"]}
+    cn = [x for x in cone(d, [n0]) if by[x][1] in lib.GATES]
+    opts = []
+    for g in cn:
+        t, fi = by[g][1], by[g][3]
+        if t in lib.MULTI:
+            opts.append({"op": "retype", "node": g, "to": rng.choice([u for u in lib.MULTI if u != t])})
+            if len(fi) >= 3:
+                opts.append({"op": "disconnect", "u": rng.choice(fi), "v": g})
+            down = {x[0] for x in d["nodes"] if g in cone(d, [x[0]])}            # nodes that g reaches (g included)
+            srcs = [x[0] for x in d["nodes"] if x[0] not in down and x[0] not in fi and x[1] != "bb_output"]
+            if srcs:
+                opts.append({"op": "connect", "u": rng.choice(srcs), "v": g})
+        else:
+            opts.append({"op": "retype", "node": g, "to": "not" if t == "buf" else "buf"})
+    return rng.choice(opts) if opts else None
+
+
+def gen_mask(rng, tier):
+    """C11-s6 family: n on top of a cone >= 2 levels deep, a middle cone node y also feeds logic OUTSIDE the cone, the drivers of y are
+    read only inside the cone; n reaches the outputs only through a masked gate (d and not d / constant 0) in most cases, so the right
+    answer of sensitize is None while the side logic reconverges on the same inputs"""
+    g2 = lambda: rng.choice(["and", "or", "nand", "nor", "xor", "xnor"])
+    ins = ["a", "b", "d"] + (["e"] if rng.random() < 0.4 else [])
+    nodes = [[i, "input", False, []] for i in ins]
+    depth = rng.choice([2, 2, 3, 4])
+    prev = "x0"
+    nodes.append(["x0", g2(), False, ["a", "b"]])
+    mids = []
+    for k in range(1, depth):
+        y = f"y{k}"
+        nodes.append([y, g2(), False, [prev, rng.choice(ins)]])
+        mids.append(y)
+        prev = y
+    nodes.append(["n", g2(), False, [prev, rng.choice(ins)]])
+    r = rng.random()
+    if r < 0.5:
+        nodes.append(["nd", "not", False, ["d"]])
+        nodes.append(["o1", "and", True, ["n", "d", "nd"]])                    # masked: d and not d
+    elif r < 0.75:
+        nodes.append(["t0", "0", False, []])
+        nodes.append(["o1", rng.choice(["and", "nor"]) if False else "and", True, ["n", "t0"]])   # masked by a constant
+    else:
+        nodes.append(["o1", g2(), True, ["n", rng.choice(ins)]])                # not masked: a valuation must be found
+    for y in rng.sample(mids, rng.randint(1, len(mids))):                       # the second load of a middle node, outside the cone of n
+        nodes.append([f"o_{y}", rng.choice(["not", "buf"]), True, [y]] if rng.random() < 0.5
+                     else [f"o_{y}", g2(), True, [y, rng.choice(ins)]])
+    d = {"name": "top", "nodes": nodes, "bbs": []}
+    if rng.random() < 0.5:
+        d = lib.shuffle_nodes(rng, d)
+    target = "n" if rng.random() < 0.7 else rng.choice(mids + ["x0"])
+    return {"kind": "sz", "circuit": d, "n": target, "E": None, "as_str": False}
 
 
 def generate(rng, tier):
@@ -205,6 +265,8 @@ def generate(rng, tier):
         out.append(gen_sv(rng, tier))
     for _ in range(n // 2):
         out.append(gen_multi(rng, tier))
+    for _ in range(n // 2):
+        out.append(gen_mask(rng, tier))
     # fixed small shapes: power-of-two cone sizes 1, 2, 4 with a node of full sensitivity (top bit of the count is exercised);
     # they go first (largest first) so that the expensive shards start early
     rand_cases, out = out, []
@@ -227,7 +289,9 @@ def generate(rng, tier):
         if k % stride == 0 and fixed:
             mixed.append(fixed.pop(0))
         mixed.append(c)
-    return mixed + fixed
+    allc = mixed + fixed
+    random.Random(len(allc)).shuffle(allc)      # heavy kinds (sv with many startpoints, multi) spread over all shards
+    return allc
 
 
 # ---------------------------------------------------------------- implementation driver
@@ -248,12 +312,38 @@ def frac(x):
     return [f.numerator, f.denominator]
 
 
+def apply_edit(c, edit):
+    """in-place edit of the live circuit object between two queries (C11-s5 class: stale caches keyed by object identity)"""
+    if edit["op"] == "retype":
+        c.set_type(edit["node"], edit["to"])
+    elif edit["op"] == "connect":
+        c.connect(edit["u"], edit["v"])
+    elif edit["op"] == "disconnect":
+        c.disconnect(edit["u"], edit["v"])
+
+
 def impl(case):
     import circuitgraph as cg
     if case["kind"] == "skip":
         return {"skip": True}
     c = lib.build_circuit(case["circuit"])
     before = lib.dump_circuit(c)
+    obs = observe(cg, c, case)
+    obs["arg_unchanged"] = lib.dump_circuit(c) == before
+    if case["kind"] == "multi" and case.get("edit"):
+        apply_edit(c, case["edit"])
+        edited = lib.dump_circuit(c)
+        n0 = case["ns"][0]
+        after = {"circuit": edited}
+        for kind in ("sv", "sz", "inf"):
+            after[kind] = observe(cg, c, {"kind": kind, "n": n0, "E": None})
+        after["arg_unchanged"] = lib.dump_circuit(c) == edited
+        obs["after"] = after
+    return obs
+
+
+def observe(cg, c, case):
+    """run the queries of one case kind on the live circuit object c"""
     n = case["n"]
     obs = {}
     if case["kind"] == "sz":
@@ -338,7 +428,6 @@ def impl(case):
             obs["avg"] = frac(cg.props.avg_sensitivity(c, n, approx=False))
         except Exception as e:
             obs["avg_exc"] = exc_name(e)
-    obs["arg_unchanged"] = lib.dump_circuit(c) == before
     return obs
 
 
@@ -365,9 +454,24 @@ def to_coq(case, obs):
     if case["kind"] == "skip":
         return None
     C = ccirc(case["circuit"])
-    n = cs(case["n"])
     if not obs.get("arg_unchanged", False):
         return f"CMutated {C}"
+    t = term(case, obs, C)
+    if case["kind"] == "multi" and "after" in obs:
+        # the same node queried again after the in-place edit: judged against the EDITED circuit
+        a = obs["after"]
+        C2 = ccirc(a["circuit"])
+        n0 = case["ns"][0]
+        if not a.get("arg_unchanged", False):
+            extra = [f"CMutated {C2}"]
+        else:
+            extra = [term({"kind": k, "n": n0, "E": None, "circuit": a["circuit"]}, a[k], C2) for k in ("sv", "sz", "inf")]
+        t = t[:-1] + ";" + ";".join(extra) + "]"
+    return t
+
+
+def term(case, obs, C):
+    n = cs(case["n"])
     if case["kind"] == "sz":
         E = "None" if case["E"] is None else "(Some %s)" % csl(obs["eord"])
         T = cres(obs, "T", ctrans)
